@@ -122,6 +122,18 @@ def handle (st : St) : List String → St × String
     match run (do let a ← pt; let b ← pt; pure (a, b)) args with
     | some (a, b) => (st, showTrack (Model.Track.columnTrack st.geo a b))
     | none => (st, "bad-trk")
+  | "trkh" :: args =>
+    match run (do let a ← pt; let b ← pt; pure (a, b)) args with
+    | some (a, b) =>
+      let g := st.geo
+      let bit := fun (x : Bool) => if x then "1" else "0"
+      let ord := match Model.Track.columnTrack g a b with
+                 | .ok segs => bit (Model.Track.orderedB 0 segs)
+                 | .unstable _ => "u"
+      (st, " ".intercalate ([bit (Model.Track.notInOneB g a b), bit (Model.Track.uniqueAtB g a), bit (Model.Track.uniqueAtB g b),
+                             bit (Model.Track.boxSymB g a b), bit (Model.Track.cleanB g a b), bit (Model.Track.revHypB g a b), ord]
+                            ++ (Model.Track.trackHypCounts g a b).map toString))
+    | none => (st, "bad-trkh")
   -- direct facets of geometry.py
   | "ip" :: args =>
     match run (do let p ← pt; let poly ← counted pt; pure (p, poly)) args with
